@@ -61,6 +61,28 @@ def validate(ctx, cases):
     return fails
 
 
+EXTREME = [dict(open="(", mid="a", close=")", n=1000000), dict(open="!", mid="a", close="", n=1000000)]
+
+
+def gen_text(g):
+    return (g["open"] * g["n"] + g["mid"] + g["close"] * g["n"]).encode()
+
+
+def extreme(ctx):
+    """The nest_paren / nest_not families of MC_Scale at a depth of 10^6 (rendered here: the instance is
+    beyond what TLC can export).  Each runs in a harness process of its own: what is looked for is a
+    crash of the whole process (Go's stack limit), which no recover() can turn into an observation."""
+    fails = []
+    for g in EXTREME:
+        c = dict(mk("extreme:%s%d" % (g["open"], g["n"]), gen_text(g), False, False), gen=g, compile=False)
+        res = ctx.run_harness("parse", [c], timeout=300, case_timeout_ms=120000)
+        r = res[c["id"]]
+        ctx.cov["evaluations"] += 1
+        if r.get("panic") or r.get("hang") or r.get("crash") or "obs" not in r:
+            fails.append((c, "total", dict(panic=r.get("panic"), hang=r.get("hang"), crash=(r.get("crash") or "")[:600])))
+    return fails
+
+
 def run(ctx):
     quick = ctx.tier == "quick"
     cases, nexp = [], 0
@@ -112,6 +134,7 @@ def run(ctx):
     if getattr(ctx, "drift_ids", None):
         ctx.notes.append("drift examples: %s" % ctx.drift_ids[:8])
     fails.sort(key=lambda f: len(f[0]["src"]))
+    fails = extreme(ctx) + fails
     done = {}
     for c, clause, detail in fails:
         if done.get(clause, 0) >= 3:
@@ -123,8 +146,12 @@ def run(ctx):
             continue    # enough attempts to reproduce this clause
         again = validate(ctx, [dict(c, id="re")])
         if again and again[0][1] == clause:
-            done[clause] = done.get(clause, 0) + 1
-            ctx.violation(dict(input=c["src"], text=bytes(c["src"]).decode("latin-1"), cfg=c["cfg"]), clause, detail)
+            if not c.get("gen"):
+                done[clause] = done.get(clause, 0) + 1
+            if c.get("gen"):    # a generated extreme instance: identified by its generator, not by two megabytes of text
+                ctx.violation(dict(gen=c["gen"], cfg=c["cfg"]), clause, dict(detail, crash=(detail.get("crash") or "")[:300]))
+            else:
+                ctx.violation(dict(input=c["src"], text=bytes(c["src"]).decode("latin-1"), cfg=c["cfg"]), clause, detail)
         else:
             ctx.notes.append("unreproduced failure on %r" % bytes(c["src"]))
     ctx.assumptions += ["error ranges are judged against the token list the REAL lexer returns for the same input",
@@ -136,7 +163,9 @@ def run(ctx):
 
 def replay(ctx, v):
     c = v["case"]
-    f = validate(ctx, [dict(id="replay", src=c["input"], cfg=c["cfg"], compile=True)])
+    if c.get("gen"):
+        c = dict(c, input=list(gen_text(c["gen"])))
+    f = validate(ctx, [dict(id="replay", src=c["input"], cfg=c["cfg"], compile=not v["case"].get("gen"))])
     print("replay C11:", [x[1] for x in f])
     if f:
         print("VIOLATION property=C11 replay=(same input)")
